@@ -174,7 +174,7 @@ fn one_interval<C: Cs>(ctx: &Ctx, st: &Setup<C>, other: Option<&Setup<C>>, r: &m
     }
     // ---------------- field-wise edits
     if tamper {
-        let variants = tampered_variants(&j, r, 1000);
+        let variants = tampered_variants_mod(&j, r, 1000, Some(n));
         ctx.count("proof_tampered_variants", variants.len() as u64);
         par_for_each(&variants, 4, |(kind, path, j2): &(String, String, Value)| {
             let cls = path_class(path);
